@@ -380,6 +380,7 @@ func (b BlockEntity) WriteTo(w io.Writer) (n int64, err error) {
 }
 
 func (b *BlockEntity) ReadFrom(r io.Reader) (n int64, err error) {
+	b.Data = nbt.RawMessage{Data: b.Data.Data[:0]} // a TagEnd on the wire leaves Data untouched
 	return pk.Tuple{
 		(*pk.Byte)(&b.XZ),
 		(*pk.Short)(&b.Y),
